@@ -1,7 +1,7 @@
 (* MulProofs4.v — C02, part 4: Toom-3 (evaluation, Bodrato interpolation, recomposition),
    given a recursive multiply-accumulate that is correct for smaller operands. *)
 From BigNum Require Import Base BaseLemmas X86 AddSub AddSubProofs ShiftCore ShiftCoreProofs
-  MulToomDeps Mul MulProofs MulProofs2 MulProofs3.
+  Mul MulProofs MulProofs2 MulProofs3.
 Open Scope Z_scope.
 
 (** * Slices *)
